@@ -1,6 +1,6 @@
 (* C09 — study configs, trials and measurements survive the wire format unchanged.  Statements only.
    Gen/EnumMaps.v is regenerated from proto_converters.py (dict literals, if-chains) and the .proto enum numbers. *)
-From VZ Require Import Base.Prelude Model.Wire Gen.EnumMaps Model.WireConv Proofs.WireP.
+From VZ Require Import Base.Prelude Model.Wire Gen.EnumMaps Model.WireConv Proofs.WireP Model.WireTrial Proofs.WireTrialP.
 
 (* ParameterConfig (any nesting depth, all four kinds, defaults incl. falsy ones, external types, LINEAR/LOG/REVERSE_LOG):
    to proto and back is the identity on every well-formed config (wf = what ParameterConfig.factory produces) *)
@@ -34,6 +34,23 @@ Theorem C09_measurement_roundtrip : forall m, (0 <= pm_elapsed m)%Q ->
   (pm_elapsed m' <= pm_elapsed m)%Q /\ (pm_elapsed m < pm_elapsed m' + 1 / 1000000000)%Q.
 Proof. exact meas_roundtrip. Qed.
 Print Assumptions C09_measurement_roundtrip.
+
+(* TRIAL.  A vz.Trial whose description / worker are not the empty string, whose flags are consistent (a queued trial is
+   not stopping or completed, only a completed trial carries a completion time) and whose measurements have non-negative
+   elapsed time comes back from to_proto / from_proto as an equal object: id, description, worker, requested flag,
+   infeasibility reason (also the empty one), status, parameter names and values (numbers by value: True == 1 == 1.0),
+   final and intermediate measurements (elapsed time within one nanosecond), creation and completion time.  Metadata is
+   C10's model; IEEE rounding of the time arithmetic is not modelled. *)
+Theorem C09_trial_roundtrip : forall t, wf_trial t ->
+  exists t', trial_from_proto (trial_to_proto t) = Some t' /\ trial_eqv t t'.
+Proof. exact trial_roundtrip. Qed.
+Print Assumptions C09_trial_roundtrip.
+
+(* the unguarded statement is REFUTED on the model of the code as it is: description '' comes back as None (known
+   finding C09-empty-string-becomes-none) *)
+Theorem C09_trial_roundtrip_full_refuted : ~ (forall t, exists t', trial_from_proto (trial_to_proto t) = Some t' /\ trial_eqv t t').
+Proof. exact trial_roundtrip_full_refuted. Qed.
+Print Assumptions C09_trial_roundtrip_full_refuted.
 
 (* non-vacuity: a depth-3 conditional space with a falsy default is well-formed *)
 Example C09_nonvacuous :
